@@ -50,3 +50,17 @@ Definition nesterov_prim_run_f (t0 : ctype) (radius0 : float) (t1 : ctype) (radi
     | NTrace => (-3, [], 0, Z.of_nat evals)
     end
   end.
+
+(** unit correspondence of the three simplex projections: (inside?1:0 or -1, ray, rewritten live rows) *)
+Definition project_f (rows : list (V3 float)) : Z * list float * list (list float) :=
+  let r : option (@proj float) :=
+    match rows with
+    | [b; a] => Some (@project_line_origin float FOps b a)
+    | [c; b; a] => Some (@project_triangle_origin float FOps c b a)
+    | [d; c; b; a] => Some (@project_tetra_to_origin float FOps d c b a)
+    | _ => None
+    end in
+  match r with
+  | None => (-1, [], [])
+  | Some (rows', ray, inside) => ((if inside then 1 else 0), v3l ray, map v3l rows')
+  end.
